@@ -11,7 +11,7 @@ from . import assemble
 VERIF = assemble.VERIF
 
 
-def write_replay(prop, unit, info, failed, seed):
+def write_replay(prop, unit, info, failed, seed, pre_native=None):
     os.makedirs(os.path.join(VERIF, "replay_out"), exist_ok=True)
     safe = re.sub(r"[^A-Za-z0-9_.-]+", "_", "%s-%s-%s" % (prop, unit, info.name))
     path = os.path.join(VERIF, "replay_out", safe + ".json")
@@ -25,7 +25,7 @@ def write_replay(prop, unit, info, failed, seed):
     }
     try:
         from . import native
-        nat = native.search(prop, unit, info, failed, seed)
+        nat = pre_native if pre_native is not None else native.search(prop, unit, info, failed, seed)
     except Exception as e:  # native replay is best effort; the verifier verdict stands on its own
         nat = {"ran": False, "reason": "native replay unavailable: %s" % e}
     doc["native"] = nat
